@@ -39,7 +39,7 @@ BOUNDS = {
              'arity 1-3 over list/tuple/dict/nested containers, block@block, rule patterns at every position of '
              'chains of length <= 5 with inert neighbours, under .T, re-reduced, inside sums and blocks; '
              'scalar multiples; 60 random well-typed trees of nesting depth <= 3 per family (compositions, sums, blocks, transposes, '
-             'inverses, scalar multiples, re-reduction in any nesting). Anything larger is outside the claim.',
+             'inverses, scalar multiples, re-reduction in any nesting); 12 expressions with symbolic COMPLEX scalars on real-valued operators (scalars merged and moved by the rules, exact in Q(i)). Anything larger is outside the claim.',
     'thorough': 'same grammar, all triples, depth 3, chains <= 6, more block combinations (capped by wall time).',
 }
 STUBS = ['lineax.linear_solve -> contract stub A.mv(z) == b (functional); lazy inverses only of operators whose '
@@ -278,6 +278,10 @@ def cases(tier, seed):
     for fam in ('vec', 'mat', 'stokes', 'tree'):
         out += [(fam, e) for e in gen_programs(fam, tier, seed)]
         out += [(fam, e) for e in gen_typed(fam, 60 if tier == 'quick' else 600, seed)]
+    from ..catalogue import other_stokes_programs
+    out += [(fam, e) for fam in ('iquv', 'qu') for e in other_stokes_programs(fam)]
+    from .. import cplx
+    out += [('cmixed', n) for n in cplx.mixed_cases()]
     return out
 
 
@@ -324,6 +328,9 @@ def run_case(key, twin=False):
     if key and key[0] == 'twin':
         return run_case(key[1], twin=True)
     fam, e = key
+    if fam == 'cmixed':
+        from .. import cplx
+        return cplx.check_mixed_reduce(e, twin)
     bld = Builder(fam)
     # 1. concrete typing with furax's own structure checks
     try:
@@ -405,6 +412,12 @@ def replay(key, model, info):
     if key and key[0] == 'twin':
         key, twin = key[1], True
     fam, e = key
+    if fam == 'cmixed':
+        from .. import cplx
+        if info.get('kind') == 'struct':
+            r = cplx.check_mixed_reduce(e)
+            return r['status'] == 'violation', r.get('what', 'ok')
+        return cplx.replay_mixed(e, model, twin)
     e = _tuplify(e)
     kind = info.get('kind', 'differs')
     with real_solver():
